@@ -1,12 +1,13 @@
 """C17 Script and body list the story text and items faithfully and in order."""
 from .. import runner, gen
-from ..harnesses import HEnum, HStory, body_states, BODY_TOKENS
+from ..harnesses import HEnum, HStory, HItem, body_states, BODY_TOKENS
+from .common import mixed_part
 from ..monitors import ScriptBody
 
-RULE = ('(1) H-ENUM: one-story running orders whose story children are every sequence of length <= B over 17 paragraph kinds '
+RULE = ('(1) H-ENUM: one-story running orders whose story children are every sequence of length <= B over 19 paragraph kinds '
         '(plain, empty, whitespace-only, (round), <angle>, half-open, half-closed, padded bracketed, "()", inner brackets, '
-        'Unicode, padded plain, "(a) and (b)", opening round/closing angle, opening angle/closing round, bracketed over two lines), an item and a foreign element; (2) H-STORY closure (moves, swaps, inserts, '
-        'replaces, deletes, roStorySend with bodies) over stories with per-ID bodies. Monitor (every state): body = every '
+        'Unicode, padded plain, "(a) and (b)", opening round/closing angle, opening angle/closing round, bracketed over two lines, made of / edged by Unicode white space U+00A0 U+3000), an item and a foreign element; (2) H-STORY closure (moves, swaps, inserts, '
+        'replaces, deletes, roStorySend with bodies) over stories with per-ID bodies; (3) H-ITEM closure (item insert / replace / delete / move / swap inside a story whose items are interleaved with paragraphs) and every message of all 24 classes from the H-MIXED states, the accessors read on the live object before the merge and checked on the same object after it. Monitor (every state): body = every '
         '<p> (text or \'\') and every item in document order; script = stripped non-empty paragraphs not wrapped in () or <>; '
         'running-order script/body = concatenation in story order - all derived independently from the XML text.')
 
@@ -23,7 +24,7 @@ BODIES = {
     'A': (('p', 'plain'), ('i', 'a'), ('p', 'round'), ('p', 'padded-plain')),
     'AB': (('p', 'angle'), ('p', 'unicode'), ('i', 'a'), ('p', 'empty')),
     'C': (('x', 1), ('p', 'half-open'), ('p', 'ws'), ('i', 'c'), ('p', 'inner')),
-    'D': (),
+    'D': (('p', 'nbsp-edged'), ('i', 'ab'), ('p', 'nbsp-only')),
     'E': (('p', 'padded'), ('p', 'half-close'), ('p', 'parens-only')),
     'F': (('p', 'mixed-br'), ('p', 'round-angle'), ('p', 'angle-round'), ('p', 'round-multiline'), ('p', 'angle-multiline')),
 }
@@ -48,6 +49,12 @@ def run(tier):
             {'label': 'story-order-closure', 'harness': HStory(pool=6, cap=4, max_list=1, bodies=BODIES, layouts=('before',), no_expand=(),
                                                               send_bodies=SEND_BODIES), 'monitors': mon, 'opts': {'time_cap': 1500, 'max_states': 30000}},
         ]
+    # item-level messages edit a story in place (same <story> element, often the same number of children): the stories
+    # of H-ITEM interleave paragraphs with the items, H-MIXED runs every message of all 24 classes
+    parts.append({'label': 'item-order-closure', 'harness': HItem(pool=3 if tier == 'quick' else 4, cap=3, max_list=1 if tier == 'quick' else 3, patterns=('p-between',),
+                                                                 positions=('second',)), 'monitors': mon,
+                  'opts': {} if tier == 'quick' else {'time_cap': 900}})
+    parts.append(mixed_part(tier, mon))
     return runner.graph_check(
         'C17', tier, parts, rule=RULE, vacuity=vacuity,
         assumptions=['paragraphs containing inline child elements are outside the claim (states holding one are skipped and counted)',
